@@ -418,10 +418,10 @@ func HeaderedReverseTopologicalOrdering(events []PDU, order TopologicalOrder) []
 		unwrapped := events[i]
 		input[i] = unwrapped
 	}
-	result := make([]PDU, len(input))
-	for i, e := range r.reverseTopologicalOrdering(input, order) {
-		result[i] = e
-	}
+	// The ordering is over the distinct events: an event listed twice comes
+	// back once, so the result can be shorter than the input.
+	result := make([]PDU, 0, len(input))
+	result = append(result, r.reverseTopologicalOrdering(input, order)...)
 	return result
 }
 
